@@ -91,9 +91,7 @@ def de {σ : Type} (rd : Rd σ) (strict : Bool) : Ty → σ → Out (Val × σ)
     (readU8 rd s).bind fun r =>
       if r.1 < 128 then .ok (.int r.1.toNat, r.2) else .err eAscii
   | .raw k, s =>
-    match k with
-    | .objectId => (rd.readExact 12 s).map fun r => (.blob r.1, r.2)       -- `read_exact(..)?` unmapped
-    | _ => (readMapped rd k.width s).map fun r => (.blob r.1, r.2)
+    (readMapped rd k.width s).map fun r => (.blob r.1, r.2)
   | .seq k t, s =>
     match k with
     | .bytesMut =>
